@@ -88,8 +88,10 @@ def fixture(w):
               'link mT %s handle %s' % (e['g'].slot, e['t'].slot), 'link mM %s handle %s' % (e['g'].slot, e['m'].slot),
               'single metadata %s handle %s' % (b.slot, e['s'].slot), 'single metadata %s handle %s' % (e['a1'].slot, e['s'].slot),
               'single seclink %s handle %s' % (e['s2'].slot, e['s'].slot), 'single extents %s handle %s' % (e['m'].slot, e['a3'].slot),
-              'adim %s sampled %s ~ ~ ~' % (e['a1'].slot, f64(0.5)),
-              'adim %s range %s ~ ~' % (e['a2'].slot, lst([f64(1.0), f64(2.0)])), 'adim %s set %s' % (e['a2'].slot, lst([S('p'), S('q')])),
+              'adim %s sampled %s %s %s %s' % (e['a1'].slot, f64(0.5), S('time'), S('ms'), f64(1.5)),
+              'set %s label %s' % (e['a1'].slot, S('lbl')), 'set %s unit %s' % (e['a1'].slot, S('mV')),
+              'set %s units %s' % (e['t'].slot, lst([S('mV')])), 'set %s extent %s' % (e['t'].slot, lst([f64(1.0)])),
+              'adim %s range %s %s %s' % (e['a2'].slot, lst([f64(1.0), f64(2.0)]), S('axis'), S('s')), 'adim %s set %s' % (e['a2'].slot, lst([S('p'), S('q')])),
               'pvalues %s %s' % (e['p'].slot, lst(['Double:' + f64(1.0)])),
               'da_fill %s %s' % (e['a1'].slot, lst([f64(1.0), f64(2.0), f64(3.0)])), 'fm_ent %s rows 2' % e['d'].slot]:
         w.emit(l)
@@ -144,6 +146,14 @@ def mutators(w, e, rng, tag):
             'fm_ent %s poly %s' % (e['a1'].slot, lst([f64(1.0), f64(2.0)])), 'fm_ent %s origin %s' % (e['a1'].slot, f64(0.5)),
             'fm_ent %s rows 3' % e['d2'].slot, 'fm_ent %s writecell 0 0 Double:%s' % (e['d'].slot, f64(4.0)),
             'fm_ent %s writecell 1 1 String:%s' % (e['d'].slot, S('cell'))]
+    # every setter that RESETS an optional field to none (it removes an attribute or a link instead of writing one)
+    out += ['sdim %s 1 label ~' % e['a1'].slot, 'sdim %s 1 unit ~' % e['a1'].slot, 'sdim %s 1 offset ~' % e['a1'].slot,
+            'sdim %s 1 label ~' % e['a2'].slot, 'sdim %s 1 unit ~' % e['a2'].slot, 'sdim %s 2 labels ~' % e['a2'].slot,
+            'set %s label ~' % e['a1'].slot, 'set %s unit ~' % e['a1'].slot, 'set %s units ~' % e['t'].slot, 'set %s extent ~' % e['t'].slot,
+            'set %s definition ~' % e['a1'].slot, 'set %s definition ~' % e['s'].slot, 'set %s repository ~' % e['s'].slot,
+            'pset %s unit ~' % e['p'].slot, 'pset %s uncertainty ~' % e['p'].slot, 'pset %s definition ~' % e['p'].slot,
+            'single metadata %s none ~' % e['b'].slot, 'single metadata %s none ~' % e['a1'].slot, 'single extents %s none ~' % e['m'].slot,
+            'single seclink %s none ~' % e['s2'].slot, 'fm_ent %s origin ~' % e['a1'].slot]
     # time stamps and the file id
     for k in ['b', 's', 'o', 'a1', 'd', 't', 'm', 'g', 'r', 'p']:
         out.append('fm_ent %s forceupdated' % e[k].slot)
